@@ -1,17 +1,35 @@
+import RawPanelVerif.Gen.Consts
 /-!
-# C11 — labelled transition system of `ConnectToPanel` (connecttopanel.go 47-241)
+# C11 — labelled transition system of `ConnectToPanel` (connecttopanel.go 33-249)
 
 One label = one Go statement group.  Environment labels: the dial result, the panel dropping the connection,
-the caller cancelling the context, a frame having completely arrived.  Program labels: everything the main
-loop and the per-connection writer goroutines do.  The scheduler is the nondeterministic choice among
-enabled labels; theorems in `Props/C11.lean` quantify over all executions.
+single bytes arriving from the panel (with the flag "this byte completes a frame"), the caller cancelling the
+context, the application offering a list on `msgsToPanel`, the consumer of `msgsFromPanel` pausing / resuming,
+the clock, and the kernel/panel taking the bytes of a `conn.Write`.  Program labels: everything the main loop
+(dial loop, probe, reader) and the per-connection writer goroutines do.  The scheduler is the nondeterministic
+choice among enabled labels; theorems in `Props/C11.lean` quantify over all executions.
 
-`step addEarly`: `addEarly = false` is the pinned code (the writer goroutine itself calls `wg.Add(1)`,
-lines 135-139), `addEarly = true` the repaired variant (`wg.Add(1)` before `go func()`).
+`step addEarly`: `addEarly = false` is the pinned code (the writer goroutine itself calls `wg.Add(1)`),
+`addEarly = true` the repaired variant (`wg.Add(1)` before `go func()`, lines 135-137).
 
-Abstractions (see the claim text): the data path is reduced to "frame complete" / "deliver" events
-(C08/C10 own the byte level), the probe to one step, time to the order of events.  The panel is assumed
-to speak only after the probe (frames arriving during the probe are C12's business).
+What is modelled
+* the reader at byte granularity: `Conn.rx` is the list of arrival flags of this connection (newest first);
+  `arrived` = complete frames, `partial` = bytes of a started but incomplete frame.  The panel may drop the
+  connection (`peerClose`) and the caller may cancel after ANY number of bytes: every drop / cancel offset is a state.
+  The reader takes a complete frame from the socket (`takeFrame`), then sends it into `msgsFromPanel`
+  (`deliver`, a bare channel send, lines 206/228: possible only while the consumer reads).
+* the reader ending the connection itself (`readFault`, binary mode only): the in-frame deadline of 2 s (lines
+  188, 198) or an over-limit length header (line 196) — both need a started, incomplete frame (`partial > 0`).
+* the writer goroutine's data path: `writerTake` (a list received from `msgsToPanel`), then `conn.Write`
+  returning nil (`writeDone`, needs a kernel/panel that takes the bytes: environment) or an error (`writeErr`,
+  after the socket was closed locally or the panel went away; the code ignores the error and goes back to its select).
+* a clock (`now`, unit ms, advanced by the environment label `tick`) for the two waits of the dial loop:
+  `time.Sleep(reConnectionRetryPeriod)` (line 246) and the `select` with `timer1` (lines 60-68), which ALSO
+  ends when a list arrives on `msgsToPanel` (`noConnDrain`, line 65).
+
+Abstractions (see the claim text): the probe is one step (C12 owns it; `dialOk bin` carries its verdict), the 2 s probe
+timeout and the 1 s ASCII EOF sleep are not on the clock, the in-frame deadline is "some time after a frame has started",
+the panel is assumed to speak only after the probe, payload contents are C08/C10's business.
 -/
 namespace RawPanelVerif.Lifecycle
 
@@ -23,16 +41,22 @@ inductive Phase
   | dialing            -- in net.Dial (56)
   | noConnWait         -- select on ctx.Done / msgsToPanel / timer (61-68)
   | probing            -- connected, probing binary/ASCII (74-130)
-  | announcing         -- writer goroutine spawned, about to call onconnect (173-175)
-  | connected          -- in the read loop (178-223)
-  | teardown (t : Tear) -- 227 close(quit) / 228 conn.Close() / 229-232 exit.Load + ondisconnect
-  | retrySleep         -- 238
-  | exiting            -- ondisconnect(true) done, about to return (233-235)
+  | announcing         -- writer goroutine spawned, about to call onconnect (176-179)
+  | connected          -- in the read loop (182-231)
+  | teardown (t : Tear) -- 235 close(quit) / 236 conn.Close() / 237-240 exit.Load + ondisconnect
+  | retrySleep         -- 246
+  | exiting            -- ondisconnect(true) done, about to return (241-243)
   | returned           -- the call has returned (deferred wg.Done done)
   deriving DecidableEq, Repr
 
-/-- the writer goroutine of one connection (135-170) -/
-inductive WSt | unborn | spawned | running | exited
+/-- the reader of the head connection may still be reading -/
+def Phase.reading : Phase → Bool
+  | .probing | .announcing | .connected => true
+  | _ => false
+
+/-- the writer goroutine of one connection (138-174): not yet created / created, not yet scheduled /
+in its `select` / inside `conn.Write` with a list it took from `msgsToPanel` / finished -/
+inductive WSt | unborn | spawned | running | writing | exited
   deriving DecidableEq, Repr
 
 structure Conn where
@@ -41,9 +65,22 @@ structure Conn where
   exit : Bool := false        -- exit.Store(true) done
   closed : Bool := false      -- conn.Close() called by the client (writer on cancel, or main at teardown)
   peerClosed : Bool := false  -- the panel dropped the connection
-  arrived : Nat := 0          -- frames that have completely arrived
+  binary : Bool := true       -- protocol mode decided by the probe
+  rx : List Bool := []        -- arrival flags of the bytes received so far, newest first; true = completes a frame
+  held : Bool := false        -- the reader has taken frame number `delivered` off the socket and is in `msgsFromPanel <-`
   delivered : Nat := 0        -- frames sent into msgsFromPanel
+  fault : Bool := false       -- the reader gave the connection up itself (in-frame timeout / over-limit header)
   deriving DecidableEq, Repr
+
+/-- bytes of the frame that has started but is not complete -/
+def partialOf : List Bool → Nat
+  | [] => 0
+  | true :: _ => 0
+  | false :: r => partialOf r + 1
+
+/-- frames that have completely arrived -/
+def Conn.arrived (c : Conn) : Nat := c.rx.count true
+def Conn.partial (c : Conn) : Nat := partialOf c.rx
 
 /-- observable history, newest first -/
 inductive Ev
@@ -61,41 +98,69 @@ structure St where
   cancelled : Bool := false
   wg : Int := 1                -- wg.Add(1) at entry (49)
   log : List Ev := []
+  stamps : List Nat := []      -- `now` at the moment of each `log` entry (same length, same order)
+  offered : Nat := 0           -- lists the application has handed to `msgsToPanel` and nobody has received yet
+  consumer : Bool := true      -- someone is receiving from `msgsFromPanel`
+  now : Nat := 0               -- clock, ms
+  wake : Nat := 0              -- expiry of the timer / sleep the main loop last started
+  rc : Nat := 1000             -- reConnectionRetryPeriod, ms
+  nc : Nat := 3000             -- noConnectionRetryPeriod, ms
   deriving DecidableEq, Repr
 
-def init : St := {}
+/-- initial state for given retry periods (ms) -/
+def initWith (nc rc : Nat) : St := { nc := nc, rc := rc }
+
+/-- lines 36-45: a zero field of `ConnectToPanelConfig` (or a nil config) means the default; seconds -/
+def effNc (cfgNc : Nat) : Nat := (if cfgNc = 0 then Gen.clientNoConnRetryDefaultS else cfgNc) * 1000
+def effRc (cfgRc : Nat) : Nat := (if cfgRc = 0 then Gen.clientReconnRetryDefaultS else cfgRc) * 1000
+
+/-- initial state for a `ConnectToPanelConfig{NoConnectionRetryPeriod: cfgNc, ReConnectionRetryPeriod: cfgRc}` -/
+def initCfg (cfgNc cfgRc : Nat) : St := initWith (effNc cfgNc) (effRc cfgRc)
+
+/-- nil config -/
+def init : St := initCfg 0 0
 
 inductive Lbl
   -- environment
-  | cancel | dialOk | dialFail | peerClose | frameComplete
+  | cancel | dialOk (bin : Bool) | dialFail | peerClose | byteArrive (fin : Bool) | offer
+  | consumerStop | consumerResume | tick (d : Nat) | writeDone (i : Nat)
   -- program: main loop
-  | noConnTimer | spawnWriter | onConnect | deliver | readErr | closeQuit | connClose
-  | onDisconnect (b : Bool) | sleepDone | ret
+  | noConnTimer | noConnDrain | spawnWriter | onConnect | takeFrame | deliver | readErr | readFault
+  | closeQuit | connClose | onDisconnect (b : Bool) | sleepDone | ret
   -- program: writer goroutine of connection `i` (index into `conns`, 0 = current)
-  | writerStart (i : Nat) | writerSeesCancel (i : Nat) | writerSeesQuit (i : Nat)
+  | writerStart (i : Nat) | writerSeesCancel (i : Nat) | writerSeesQuit (i : Nat) | writerTake (i : Nat) | writeErr (i : Nat)
   deriving DecidableEq, Repr
 
 def Lbl.isEnv : Lbl → Bool
-  | .cancel | .dialOk | .dialFail | .peerClose | .frameComplete => true
+  | .cancel | .dialOk _ | .dialFail | .peerClose | .byteArrive _ | .offer
+  | .consumerStop | .consumerResume | .tick _ | .writeDone _ => true
   | _ => false
 
 def Lbl.isProgram (l : Lbl) : Bool := !l.isEnv
 
 def step (addEarly : Bool) (s : St) : Lbl → Option St
   | .cancel => some { s with cancelled := true }
-  | .dialOk =>
-    if s.phase = .dialing then some { s with phase := .probing, conns := {} :: s.conns, log := .dial :: s.log } else none
-  | .dialFail => if s.phase = .dialing then some { s with phase := .noConnWait } else none
-  | .noConnTimer => if s.phase = .noConnWait then some { s with phase := .dialing } else none
+  | .offer => some { s with offered := s.offered + 1 }
+  | .consumerStop => some { s with consumer := false }
+  | .consumerResume => some { s with consumer := true }
+  | .tick d => some { s with now := s.now + d }
+  | .dialOk bin =>
+    if s.phase = .dialing then
+      some { s with phase := .probing, conns := { binary := bin } :: s.conns, log := .dial :: s.log, stamps := s.now :: s.stamps }
+    else none
+  | .dialFail => if s.phase = .dialing then some { s with phase := .noConnWait, wake := s.now + s.nc } else none
+  | .noConnTimer => if s.phase = .noConnWait ∧ s.wake ≤ s.now then some { s with phase := .dialing } else none
+  | .noConnDrain =>
+    if s.phase = .noConnWait ∧ 0 < s.offered then some { s with phase := .dialing, offered := s.offered - 1 } else none
   | .peerClose =>
     match s.conns with
     | c :: rest => if c.peerClosed then none else some { s with conns := { c with peerClosed := true } :: rest }
     | [] => none
-  | .frameComplete =>
+  | .byteArrive fin =>
     match s.conns with
     | c :: rest =>
       if (s.phase = .announcing ∨ s.phase = .connected) ∧ c.peerClosed = false then
-        some { s with conns := { c with arrived := c.arrived + 1 } :: rest }
+        some { s with conns := { c with rx := fin :: c.rx } :: rest }
       else none
     | [] => none
   | .spawnWriter =>
@@ -106,20 +171,35 @@ def step (addEarly : Bool) (s : St) : Lbl → Option St
                       wg := if addEarly then s.wg + 1 else s.wg }
       else none
     | [] => none
-  | .onConnect => if s.phase = .announcing then some { s with phase := .connected, log := .connect :: s.log } else none
+  | .onConnect =>
+    if s.phase = .announcing then some { s with phase := .connected, log := .connect :: s.log, stamps := s.now :: s.stamps } else none
+  | .takeFrame =>
+    match s.conns with
+    | c :: rest =>
+      if s.phase = .connected ∧ c.held = false ∧ c.delivered < c.arrived ∧ c.closed = false then
+        some { s with conns := { c with held := true } :: rest }
+      else none
+    | [] => none
   | .deliver =>
     match s.conns with
     | c :: rest =>
-      if s.phase = .connected ∧ c.delivered < c.arrived ∧ c.closed = false then
-        some { s with conns := { c with delivered := c.delivered + 1 } :: rest,
-                      log := .deliver rest.length c.delivered :: s.log }
+      if s.phase = .connected ∧ c.held = true ∧ s.consumer = true then
+        some { s with conns := { c with held := false, delivered := c.delivered + 1 } :: rest,
+                      log := .deliver rest.length c.delivered :: s.log, stamps := s.now :: s.stamps }
       else none
     | [] => none
   | .readErr =>
     match s.conns with
     | c :: _ =>
-      if s.phase = .connected ∧ (c.closed = true ∨ (c.peerClosed = true ∧ c.delivered = c.arrived)) then
+      if s.phase = .connected ∧ c.held = false ∧ (c.closed = true ∨ (c.peerClosed = true ∧ c.delivered = c.arrived)) then
         some { s with phase := .teardown .quit }
+      else none
+    | [] => none
+  | .readFault =>
+    match s.conns with
+    | c :: rest =>
+      if s.phase = .connected ∧ c.held = false ∧ c.binary = true ∧ c.closed = false ∧ c.delivered = c.arrived ∧ 0 < c.partial then
+        some { s with phase := .teardown .quit, conns := { c with fault := true } :: rest }
       else none
     | [] => none
   | .closeQuit =>
@@ -138,13 +218,17 @@ def step (addEarly : Bool) (s : St) : Lbl → Option St
     match s.conns with
     | c :: _ =>
       if s.phase = .teardown .callback ∧ b = c.exit then
-        some { s with phase := if b then .exiting else .retrySleep, log := .disconnect b :: s.log }
+        some { s with phase := if b then .exiting else .retrySleep, log := .disconnect b :: s.log, stamps := s.now :: s.stamps,
+                      wake := s.now + s.rc }
       else none
     | [] => none
-  | .sleepDone => if s.phase = .retrySleep then some { s with phase := .dialing, log := .sleepDone :: s.log } else none
+  | .sleepDone =>
+    if s.phase = .retrySleep ∧ s.wake ≤ s.now then
+      some { s with phase := .dialing, log := .sleepDone :: s.log, stamps := s.now :: s.stamps }
+    else none
   | .ret =>
     if s.phase = .exiting ∨ (s.phase = .noConnWait ∧ s.cancelled = true) then
-      some { s with phase := .returned, wg := s.wg - 1, log := .returned :: s.log }
+      some { s with phase := .returned, wg := s.wg - 1, log := .returned :: s.log, stamps := s.now :: s.stamps }
     else none
   | .writerStart i =>
     match s.conns[i]? with
@@ -167,14 +251,33 @@ def step (addEarly : Bool) (s : St) : Lbl → Option St
         some { s with conns := s.conns.set i { c with w := .exited }, wg := s.wg - 1 }
       else none
     | none => none
+  | .writerTake i =>
+    match s.conns[i]? with
+    | some c =>
+      if c.w = .running ∧ 0 < s.offered then
+        some { s with conns := s.conns.set i { c with w := .writing }, offered := s.offered - 1 }
+      else none
+    | none => none
+  | .writeDone i =>
+    match s.conns[i]? with
+    | some c =>
+      if c.w = .writing ∧ c.closed = false then some { s with conns := s.conns.set i { c with w := .running } } else none
+    | none => none
+  | .writeErr i =>
+    match s.conns[i]? with
+    | some c =>
+      if c.w = .writing ∧ (c.closed = true ∨ c.peerClosed = true) then
+        some { s with conns := s.conns.set i { c with w := .running } }
+      else none
+    | none => none
 
 def run (addEarly : Bool) (s : St) : List Lbl → Option St
   | [] => some s
   | l :: ls => (step addEarly s l).bind (fun s' => run addEarly s' ls)
 
-/-- reachable from the initial state by some execution -/
+/-- reachable from an initial state (any retry periods) by some execution -/
 inductive Reachable (addEarly : Bool) : St → Prop
-  | init : Reachable addEarly init
+  | init (nc rc : Nat) : Reachable addEarly (initWith nc rc)
   | step {s s' : St} (l : Lbl) : Reachable addEarly s → step addEarly s l = some s' → Reachable addEarly s'
 
 theorem reachable_of_run (ae : Bool) : ∀ (ls : List Lbl) (s0 s : St), Reachable ae s0 → run ae s0 ls = some s → Reachable ae s
@@ -185,14 +288,16 @@ theorem reachable_of_run (ae : Bool) : ∀ (ls : List Lbl) (s0 s : St), Reachabl
     | none => simp [hst] at hr
     | some s1 => simp [hst] at hr; exact reachable_of_run ae ls s1 s (Reachable.step l h0 hst) hr
 
-/-! ## executable helpers for trace validation (the driver) -/
+theorem reachable_init (ae : Bool) : Reachable ae init := Reachable.init _ _
 
-/-- the state with its history erased (guards never read the log) -/
-def St.forget (s : St) : St := { s with log := [] }
+/-- the arrival flags of the first `d` bytes of one frame of `n` bytes: `n-1` bytes that do not complete it, then one that does -/
+def frameFlags (n d : Nat) : List Bool :=
+  List.replicate (min (n - 1) d) false ++ (if 0 < n ∧ n ≤ d then [true] else [])
 
-def allLabels (nconns : Nat) : List Lbl :=
-  [.cancel, .dialOk, .dialFail, .peerClose, .frameComplete, .noConnTimer, .spawnWriter, .onConnect, .deliver,
-   .readErr, .closeQuit, .connClose, .onDisconnect true, .onDisconnect false, .sleepDone, .ret]
-  ++ (List.range nconns).flatMap (fun i => [.writerStart i, .writerSeesCancel i, .writerSeesQuit i])
+/-- the arrival flags (oldest first) of the first `d` bytes of a panel stream whose frames have the byte lengths
+`lens` (binary: 4 header bytes + payload; ASCII: the line with its LF) -/
+def arrivals : List Nat → Nat → List Bool
+  | [], _ => []
+  | n :: ls, d => frameFlags n d ++ arrivals ls (d - n)
 
 end RawPanelVerif.Lifecycle
